@@ -18,7 +18,7 @@ use std::{cmp, io, thread};
 use std::collections::{HashMap, HashSet};
 use std::fs::{self, canonicalize, create_dir_all, read_link, File, Metadata};
 use std::io::ErrorKind;
-use std::os::unix::fs::MetadataExt;
+use std::os::unix::fs::{FileTypeExt, MetadataExt};
 use std::path::{Component, Path, PathBuf};
 use std::sync::Arc;
 use std::sync::atomic::{AtomicBool, Ordering};
@@ -57,6 +57,12 @@ impl CopyHandle {
             if to_meta.dev() == metadata.dev() && to_meta.ino() == metadata.ino() {
                 return Err(XcpError::DestinationExists("Source and destination are the same file.", to.to_path_buf()).into());
             }
+        }
+
+        // A FIFO in the way would block the open below until somebody
+        // reads from it (and cannot be sized like a file anyway).
+        if fs::metadata(to).is_ok_and(|m| m.file_type().is_fifo()) {
+            return Err(XcpError::DestinationExists("Destination is a FIFO.", to.to_path_buf()).into());
         }
 
         // A link at the destination that leads nowhere: creating the
